@@ -87,6 +87,16 @@ impl Acc {
             self.viol.push(Violation { key: key.to_string(), call, expected, actual, unit: self.unit });
         }
     }
+    /// Same bookkeeping as `violation`, but the descriptions are only built when the record is kept
+    /// (for keys that repeat millions of times, e.g. a listed known finding inside a sweep).
+    pub fn violation_lazy(&mut self, key: &str, f: impl FnOnce() -> (String, String, String)) {
+        self.viol_total += 1;
+        let same = self.viol.iter().filter(|v| v.key == key).count();
+        if (self.viol.len() < MAX_VIOL_PER_ACC && same < 4) || (same == 0 && self.viol.len() < MAX_VIOL_PER_ACC * 2) {
+            let (call, expected, actual) = f();
+            self.viol.push(Violation { key: key.to_string(), call, expected, actual, unit: self.unit });
+        }
+    }
     pub fn merge(&mut self, o: Acc) {
         self.transitions += o.transitions;
         self.states += o.states;
@@ -136,7 +146,7 @@ macro_rules! check_eq {
 // panic monitor
 
 thread_local! {
-    static LAST_PANIC: RefCell<Option<String>> = RefCell::new(None);
+    static LAST_PANIC: RefCell<(bool, String)> = RefCell::new((false, String::new()));
 }
 
 pub fn install_panic_hook() {
@@ -144,18 +154,30 @@ pub fn install_panic_hook() {
     unsafe {
         libc::mallopt(libc::M_TRIM_THRESHOLD, 1 << 30);
         libc::mallopt(libc::M_MMAP_THRESHOLD, 1 << 30);
-        libc::mallopt(libc::M_TOP_PAD, 64 << 20);
+        libc::mallopt(libc::M_TOP_PAD, 1 << 20);
     }
     std::panic::set_hook(Box::new(|info| {
-        let msg = if let Some(s) = info.payload().downcast_ref::<&str>() {
-            s.to_string()
-        } else if let Some(s) = info.payload().downcast_ref::<String>() {
-            s.clone()
-        } else {
-            "<non-string panic>".to_string()
-        };
-        let loc = info.location().map(|l| format!(" at {}:{}", l.file(), l.line())).unwrap_or_default();
-        LAST_PANIC.with(|p| *p.borrow_mut() = Some(format!("{}{}", msg, loc)));
+        // no reallocation here: the buffer is per thread and keeps its capacity (expected panics are frequent in some drivers)
+        use std::fmt::Write as _;
+        LAST_PANIC.with(|p| {
+            let mut b = p.borrow_mut();
+            let (set, buf) = &mut *b;
+            buf.clear();
+            if buf.capacity() < 512 {
+                buf.reserve(512);
+            }
+            if let Some(s) = info.payload().downcast_ref::<&str>() {
+                buf.push_str(s);
+            } else if let Some(s) = info.payload().downcast_ref::<String>() {
+                buf.push_str(s);
+            } else {
+                buf.push_str("<non-string panic>");
+            }
+            if let Some(l) = info.location() {
+                let _ = write!(buf, " at {}:{}", l.file(), l.line());
+            }
+            *set = true;
+        });
     }));
 }
 
@@ -164,7 +186,17 @@ pub fn install_panic_hook() {
 pub fn guard<T>(f: impl FnOnce() -> T) -> Result<T, String> {
     match catch_unwind(AssertUnwindSafe(f)) {
         Ok(v) => Ok(v),
-        Err(_) => Err(LAST_PANIC.with(|p| p.borrow_mut().take()).unwrap_or_else(|| "panic".into())),
+        Err(_) => Err(LAST_PANIC.with(|p| {
+            let mut b = p.borrow_mut();
+            if b.0 {
+                b.0 = false;
+                let mut s = String::with_capacity(b.1.len());
+                s.push_str(&b.1);
+                s
+            } else {
+                "panic".into()
+            }
+        })),
     }
 }
 
